@@ -36,7 +36,7 @@ ANCHORS = [
 RULE = ("honest PSBTs of random m-of-n wallets (1 <= m <= n <= 4; P2SH through create_multisig_psbt, P2WSH and "
         "P2SH-P2WSH through PSBT.create/update), 1..3 inputs, 1..3 outputs with or without change, summary requested "
         "with the PSBT's global xpubs and with a caller-supplied hdpubkey_map; for every honest PSBT every applicable "
-        "item of the tampering catalogue (20 items; input-side items at every input position, change first / middle / last, xpubs inside the PSBT or only in the caller's map, inputs sharing one wallet address); the summary fields or REJECT are compared with the model; a case "
+        "item of the tampering catalogue (20 items, second change with amounts 0 / 1 / dust / large in both orders; input-side items at every input position, change first / middle / last, honest 0-sat change / spend outputs, xpubs inside the PSBT or only in the caller's map, inputs sharing one wallet address), the change output under the {scriptPubKey kind} x {RedeemScript record} x {WitnessScript record} matrix, and 13 non-template scripts with all the genuine keys (other final opcode, extra opcode, OP_m / OP_n off by one) on the change output and on every input; the summary fields or REJECT are compared with the model; a case "
         "is non-trivial always; distinct = distinct (PSBT bytes, hdpubkey_map) requests")
 CLAUSES = {
     "fee = sum(inputs) - sum(outputs); spend + change + fee = sum(inputs)":
@@ -447,6 +447,85 @@ def tamper(name, rng, b, raw, pos=0):
     return None
 
 
+TEMPLATE_VARIANTS = ("last_checkmultisigverify", "last_checksig", "last_checksigverify", "last_nop", "last_undefined",
+                     "prepend_nop", "prepend_op_m", "append_nop", "append_checkmultisig", "m_plus_one", "m_minus_one",
+                     "n_plus_one", "n_minus_one", "exact")
+
+
+def template_variants(rng, b, raw, side, pos):
+    """scripts that keep ALL the genuine keys (and, unless the variant says otherwise, the quorum numbers) of the
+    change output (`side` = "out") or of input `pos` (`side` = "in") but are not the plain multisig template
+    `OP_m <keys> OP_n OP_CHECKMULTISIG`: another final opcode, an opcode before / after, OP_m / OP_n off by one.
+    The scriptPubKey (output) / the spent UTXO (input) commits to the variant script and the derivation records stay
+    the wallet's, so nothing but the template test can refuse them.  Yields (label, bytes, ok) with `ok` = may be
+    summarised: for an output only the literal template with the wallet's m and as many keys as OP_n says."""
+    from buidl.script import RedeemScript, WitnessScript, P2SHScriptPubKey, P2WSHScriptPubKey
+
+    w, st = b.wallet, b.wallet.stype
+    if st not in ("p2sh", "p2wsh") or (side == "out" and b.change_pos is None):
+        return
+    with PC.Oracle():
+        q0 = PC.reparse(raw)
+    holder0 = q0.psbt_outs[b.change_pos] if side == "out" else q0.psbt_ins[pos]
+    cmds = list((holder0.witness_script or holder0.redeem_script).commands)
+    m_op, keys, n_op = cmds[0], cmds[1:-2], cmds[-2]
+    body = [m_op] + keys + [n_op]
+    table = {"last_checkmultisigverify": body + [175], "last_checksig": body + [172], "last_checksigverify": body + [173],
+             "last_nop": body + [97], "last_undefined": body + [0xFE], "prepend_nop": [97] + body + [174],
+             "prepend_op_m": [m_op] + body + [174], "append_nop": body + [174, 97], "append_checkmultisig": body + [174, 174],
+             "m_plus_one": [m_op + 1] + keys + [n_op, 174], "m_minus_one": [m_op - 1] + keys + [n_op, 174],
+             "n_plus_one": [m_op] + keys + [n_op + 1, 174], "n_minus_one": [m_op] + keys + [n_op - 1, 174],
+             "exact": body + [174]}
+    for label in TEMPLATE_VARIANTS:
+        v = table[label]
+        if side == "out" and label == "exact":
+            continue
+        if any(isinstance(c, int) and not 0 <= c <= 255 for c in v):
+            continue
+        with PC.Oracle():
+            q = PC.reparse(raw)
+        if st == "p2wsh":
+            sc = WitnessScript(v)
+            spk = P2WSHScriptPubKey(sc.sha256())
+        else:
+            sc = RedeemScript(v)
+            spk = P2SHScriptPubKey(sc.hash160())
+        if side == "out":
+            po = q.psbt_outs[b.change_pos]
+            po.tx_out.script_pubkey = spk
+            if st == "p2wsh":
+                po.witness_script = sc
+            else:
+                po.redeem_script = sc
+        else:
+            pi = q.psbt_ins[pos]
+            prev2 = PC.funding_tx(rng, [(pi.tx_in._value, spk)])
+            pi.tx_in.prev_tx, pi.tx_in.prev_index = prev2.hash(), 0
+            pi.tx_in._script_pubkey = spk
+            if pi.prev_tx is not None:
+                pi.prev_tx = prev2
+            if pi.prev_out is not None:
+                pi.prev_out = prev2.tx_outs[0]
+            if st == "p2wsh":
+                pi.witness_script = sc
+            else:
+                pi.redeem_script = sc
+        if side == "out":
+            ok = (v[-1] == 174 and len(v) == len(keys) + 3 and v[-2] == 80 + len(keys) and v[0] == 80 + w.m and v[1:-2] == keys)
+        else:
+            # inputs (observation O11c): describe_basic_multisig reads m and n off an input script without requiring
+            # the plain template (a P2SH input `m <keys> OP_(n+-1) OP_CHECKMULTISIG`, a P2WSH input
+            # `OP_m OP_m <keys> OP_n OP_CHECKMULTISIG` are summarised as m-of-n; nothing is labelled change by it, and the
+            # model says the same); what must hold is the final opcode and numbers where m and n are read
+            # (a P2SH input's n is the number of keys: OP_n is not read at all)
+            # and its m goes through op_code_to_number, which also takes OP_0 / OP_1NEGATE / 0x50 (summarised as 0-of-n)
+            if st == "p2sh":
+                ok = v[-1] == 174 and isinstance(v[0], int) and (v[0] == 0 or 79 <= v[0] <= 96)
+            else:
+                ok = (v[-1] == 174 and isinstance(v[0], int) and 81 <= v[0] <= 96 and isinstance(v[-2], int) and 81 <= v[-2] <= 96)
+        yield label, q.serialize(), ok
+
+
 def script_matrix(rng, b, raw, full):
     """the change output under every combination of {scriptPubKey kind} x {RedeemScript record} x {WitnessScript
     record}; S = the wallet's change script, A = an attacker's script of the same shape, N_X = the nested witness
@@ -625,6 +704,20 @@ def _psbt_job(spec, lines, preds):
                 labelled = t[off + 2 + 2 * b.change_pos] == "1"
             preds.append(("change_label_commits", dict(c, pred="change_label_commits"), (not labelled) or commit_ok,
                           "labelled change" if labelled else "not labelled", "labelled only if the scriptPubKey commits to the wallet's script"))
+    # scripts with all the genuine keys that are not the plain multisig template, on the change output and on every
+    # input: the verdict is the model's; independently, such a PSBT is summarised only if the script is the template
+    if spec["stype"] in ("p2sh", "p2wsh"):
+        trng = random.Random(f"{spec['seed']}:template")
+        sides = ([("out", b.change_pos)] if b.change_pos is not None else []) + [("in", k) for k in range(len(b.psbt.psbt_ins))]
+        for si, (side, pos) in enumerate(sides):
+            for vi, (label, traw, exact) in enumerate(template_variants(trng, b, raw, side, pos)):
+                slabel, hmap = styles[(vi + si) % len(styles)]
+                ans, o = describe_real(traw, hmap)
+                c = dict(case0, tamper="template_" + side, pos=pos, combo=label, style=slabel)
+                lines.append(("describe_template", c, request("fixed", traw, hmap, o), ans))
+                preds.append(("template_exact", dict(c, pred="template_exact"), ans == REJECT or exact,
+                              "summarised" if ans != REJECT else REJECT,
+                              "summarised only if the script is the multisig template (see PREDICATE_DOC)"))
     return {"lines": lines, "preds": preds, "stats": {"stype": spec["stype"], "m": spec["m"], "n": spec["n"],
                                                       "helper": bool(spec["stype"] == "p2sh" and spec["via_helper"]),
                                                       "inputs": spec["n_inputs"], "in_psbt": in_psbt,
@@ -728,6 +821,8 @@ def run(ctx):
             if ok:
                 rec.ok(pk, repr(case)[:400])
                 rec.sample(pk, case, limit=1)
+                if pk == "template_exact":
+                    rec.count(f"template:{case['tamper']}:{case['combo']}:{got}")
                 if pk == "change_label_commits":
                     rec.count("matrix:" + got + ":" + case["combo"].split(" ")[0])
                 if pk == "tampered_rejected":
@@ -804,6 +899,7 @@ PREDICATE_DOC = {
     "honest_change_labels_exact": "is_change is true for the wallet's change output and for no other output",
     "no_xpubs_refused": "without global xpubs and without hdpubkey_map the summary is refused",
     "change_label_commits": "under every {scriptPubKey kind} x {RedeemScript record} x {WitnessScript record} combination on the change output, it is labelled change only if the scriptPubKey itself commits by hash (P2WSH, P2SH, P2SH-P2WSH) to the wallet's script through the attached records",
+    "template_exact": "a change output whose script keeps all the genuine keys but is not literally OP_m <keys> OP_n OP_CHECKMULTISIG (other final opcode such as CHECKMULTISIGVERIFY / CHECKSIG / NOP / undefined, an opcode before or after, OP_m or OP_n off by one), committed to by the scriptPubKey, is never summarised; the same scripts on an input (the spent UTXO commits to them) are summarised only when the final opcode is OP_CHECKMULTISIG and OP_m / OP_n are numbers (observation O11c: the plain template is not required of inputs)",
     "tampered_rejected": "every applicable item of the tampering catalogue makes describe_basic_multisig raise",
 }
 
